@@ -359,6 +359,12 @@ pub fn run_one(cfg: &ForestCfg, run_index: u64, run_seed: u64, known: &KnownFile
                     queued.extend(ops);
                 }
             }
+            if prof.w_storewide > 0 && rng.pct(2) {
+                if let Some(ops) = gen::gen_redundant_decl_motif(&w.model, &mut rng, &clients[c].home) {
+                    stats.inc("probe/redundant_declarations_motif");
+                    queued.extend(ops);
+                }
+            }
             if prof.flip_pm > 0 && rng.pct(3) {
                 if let Some(ops) = gen::gen_split_text_motif(&w.model, &mut rng, &clients[c].home) {
                     stats.inc("probe/split_text_motif");
